@@ -356,7 +356,7 @@ func c25Bloom(bits ...int) (full, stripped []byte) {
 
 func TestVerifC25(t *testing.T) {
 	r := ev.Start(t, "C25", "exploration")
-	r.Rule("inputs: all byte strings of length<=2 (thorough <=3); all strings of length<=9 (thorough <=12) over {00,01,80}; bloom-shaped 256-byte strings and their leading-zero-stripped form with every 1-bit pattern, every 2-bit pattern (quick: both bits in the first/last 8 bytes or at most 16 bit positions apart; thorough: all 2 096 128), thorough every 3-bit pattern inside the first/last 4 bytes; runs of one byte value (lengths 1..600 x {00,ff,55}); table-overflow families: high-entropy generator (all consecutive pairs distinct) at every length 0..4200 (thorough every length 0..12288 for 3 offsets), +-40 around the 2nd and 3rd dictionary overflow and every 97th length to 12288; counting sequences over alphabets of 2 and 3 symbols at every length within +-40 (thorough +-400) of their first dictionary overflow. distinct_nontrivial = distinct inputs (every non-empty input is compressed, decoded by two decoders and compared byte-for-byte with the reference encoder)")
+	r.Rule("inputs: all byte strings of length<=2 (thorough: + length 3 over 32 byte values, length 4 over 8 values, length<=8 over {00,01,80,ff}); all strings of length<=9 (thorough <=12) over {00,01,80}; bloom-shaped 256-byte strings and their leading-zero-stripped form with every 1-bit pattern, every 2-bit pattern (quick: both bits in the first/last 8 bytes or at most 16 bit positions apart; thorough: all 2 096 128), thorough every 3-bit pattern inside the first/last 4 bytes; runs of one byte value (lengths 1..600 x {00,ff,55}); table-overflow families: high-entropy generator (all consecutive pairs distinct) at every length 0..4200 (thorough every length 0..12288 for 3 offsets), +-40 around the 2nd and 3rd dictionary overflow and every 97th length to 12288; counting sequences over alphabets of 2 and 3 symbols at every length within +-40 (thorough +-400) of their first dictionary overflow. distinct_nontrivial = distinct inputs (every non-empty input is compressed, decoded by two decoders and compared byte-for-byte with the reference encoder)")
 	r.Assume("reference encoder (map-of-strings dictionary, bit-at-a-time MSB packer) implements the pre-Go-1.17 compress/lzw writer format as described in the harness header",
 		"second decoder = the Go 1.23 standard library compress/lzw reader")
 	e := &c25Env{r: r, sizes: map[int]int{}}
@@ -506,14 +506,38 @@ func TestVerifC25(t *testing.T) {
 			}
 		}
 	}
-	// 7. thorough: all 3-byte strings
+	// 7. thorough: all strings of length 3 over 32 byte values, of length 4 over 8
+	// values and of length <=8 over {00,01,80,ff}
 	if r.Thorough() {
-		for x := 0; x < 256 && !expired(); x++ {
-			for y := 0; y < 256; y++ {
-				for z := 0; z < 256; z++ {
-					b.add("short", []byte{byte(x), byte(y), byte(z)})
+		words := func(alpha []byte, l int) {
+			idx := make([]int, l)
+			for !expired() {
+				x := make([]byte, l)
+				for i, d := range idx {
+					x[i] = alpha[d]
+				}
+				b.add("short", x)
+				i := l - 1
+				for ; i >= 0; i-- {
+					idx[i]++
+					if idx[i] < len(alpha) {
+						break
+					}
+					idx[i] = 0
+				}
+				if i < 0 {
+					break
 				}
 			}
+		}
+		var a32 []byte
+		for v := 0; v < 256; v += 8 {
+			a32 = append(a32, byte(v)^byte(v>>5))
+		}
+		words(a32, 3)
+		words([]byte{0x00, 0x01, 0x7f, 0x80, 0x81, 0xfe, 0xff, 0x55}, 4)
+		for l := 1; l <= 8; l++ {
+			words([]byte{0x00, 0x01, 0x80, 0xff}, l)
 		}
 	}
 	b.flush()
